@@ -128,7 +128,7 @@ def _codes():
 
 class C03(Prop):
     id = "C03"
-    modules = ["H3.Props.C03"]
+    modules = ["H3.Props.C03", "H3.Lemmas.GenAgreeReq", "H3.Lemmas.GenAgreeFrame"]
     engines = ["req"]
     design_ref = "DESIGN.md section 7, C03"
     level_text = ("Lean theorems over a model of the receive side of a request stream (RequestStream::{poll_recv_data,"
@@ -155,7 +155,8 @@ class C03(Prop):
             "offset, malformed/bad-SETTINGS/bad-header frames, endings and chunks arriving between the calls, raw recv_data "
             "call sequences incl. calls after the end; non-trivial = at least one API call of the stream completed")
     trusted = ["SimQuic + scripted executor (harness/src/sim.rs, exec.rs, scen.rs)",
-               "http / qpack decoding of the five fixed header blocks (oracle in lean/H3/Drv/C03.lean)"]
+               "http / qpack decoding of the five fixed header blocks (oracle in lean/H3/Drv/C03.lean)",
+               "translator decision tables H3.Gen.ReqArms (arms of RequestStream::poll_recv_data / poll_recv_trailers per variant of enum Frame, incl. the catch-all arms), H3.Gen.FirstFrame (server accept_with_frame, client recv_response) and H3.Gen.FrameErrCodes (got_frame_error, handle_frame_stream_error_on_request_stream), re-read from h3/src/connection.rs, h3/src/server/request.rs, h3/src/client/stream.rs, h3/src/error/*.rs on this run (any other shape is refused); tied to the model by H3.Lemmas.GenAgreeReq (pollRecvData_frame, trailersFirst_frame, trailersCheck_frame, pollHead_frame and their _fin/_err/_pending companions: on every answer of the frame layer the model step does what the generated arm says), rebuilt on this run"]
     assumptions = ["documented call pattern: resolve_request/recv_response, recv_data until None, recv_trailers; no call after an error",
                    "every HEADERS block decodes to a well-formed message (C11/C12 decide that)",
                    "for RESET the frames delivered before the reset is noticed are a prefix of the frames sent (C02, App. B.1)",
